@@ -22,6 +22,10 @@
      p_cin p_cout   pipe capacities in units
      p_echo         child copies bytes as they come (cat); otherwise it answers whole lines
      p_kpol         line child: Some k = answers released in blocks of k lines, None = only at end of input
+     p_early        line child that answers a line as soon as its first unit arrives (and writes eagerly)
+     p_mid_peek     the collector, after each record, peeks at the child's output when the queue is empty
+                    (foldfilter); KMid = the first queue test, KMidW = inside the blocking peek(), KMid2 = the second queue test
+     p_peek_eof_ok  end-of-file in that peek is tolerated when the queue is no longer empty
    The stream buffer (size, flush rate) is abstracted by nondeterminism: the
    feeder may start a blocking flush at any time and must at end of input, so
    theorems hold for every buffer size and flush rate. *)
@@ -34,10 +38,13 @@ Record wparams := mkP {
   p_cin : nat;
   p_cout : nat;
   p_echo : bool;
-  p_kpol : option nat }.
+  p_kpol : option nat;
+  p_early : bool;          (* line child that writes its answer to a line as soon as the line's FIRST unit arrives *)
+  p_mid_peek : bool;       (* collector: after emitting a record, `if (queue.Empty()) { peek(); if (queue.Empty()) throw }` (foldfilter) *)
+  p_peek_eof_ok : bool }.  (* ... and an end-of-file seen by that peek is only an error if the queue is still empty *)
 
 Inductive fpc := FNext | FSendFirst | FEnqSecond | FSendSecond | FEofFlush | FEofClose | FEofPoison | FDone.
-Inductive kpc := KDeq | KLines | KPeek | KDone | KErr.
+Inductive kpc := KDeq | KLines | KMid | KMidW | KMid2 | KPeek | KDone | KErr.
 
 Record wst := mkW {
   (* feeder *)
@@ -173,7 +180,9 @@ Section Wrap.
         (w_kread s) (w_klines s) (w_kpc s) (w_kneed s) (w_kcur s) (w_emitted s).
 
   (* answer units the child has computed so far *)
-  Definition produced (cread clines : nat) : nat := if p_echo pr then cread else A clines.
+  Definition produced (cread clines : nat) : nat :=
+    if p_echo pr then cread
+    else A (clines + (if p_early pr && (I clines <? cread) then 1 else 0)).
 
   Definition release_now (clines crell : nat) : bool :=
     match p_kpol pr with
@@ -188,6 +197,7 @@ Section Wrap.
       let cread := w_cread s + m in
       let clines := if Nat.eqb cread (I (S (w_clines s))) then S (w_clines s) else w_clines s in
       if p_echo pr then Some (set_child s cread clines clines cread (w_cwritten s) false)
+      else if p_early pr then Some (set_child s cread clines clines (produced cread clines) (w_cwritten s) false)
       else if negb (Nat.eqb clines (w_clines s)) && release_now clines (w_crell s) then
              Some (set_child s cread clines clines (A clines) (w_cwritten s) false)
            else Some (set_child s cread clines (w_crell s) (w_crel s) (w_cwritten s) false)
@@ -221,7 +231,7 @@ Section Wrap.
       end
     | KLines =>
       match w_kneed s with
-      | 0 => Some (set_coll s (w_queue s) (w_kread s) (w_klines s) KDeq 0 (w_klines s)
+      | 0 => Some (set_coll s (w_queue s) (w_kread s) (w_klines s) (if p_mid_peek pr then KMid else KDeq) 0 (w_klines s)
                             ((w_kcur s, w_klines s - w_kcur s) :: w_emitted s))
       | S need =>
         if A (S (w_klines s)) <=? w_kread s then      (* a complete line is buffered: take it *)
@@ -231,6 +241,22 @@ Section Wrap.
         else if w_cexit s && Nat.eqb (w_kread s) (w_cwritten s) then   (* end of file: "child stopped producing" *)
           Some (set_coll s (w_queue s) (w_kread s) (w_klines s) KErr (w_kneed s) (w_kcur s) (w_emitted s))
         else None
+      end
+    | KMid =>       (* if (queue.Empty()) ... *)
+      match w_queue s with
+      | _ :: _ => Some (set_coll s (w_queue s) (w_kread s) (w_klines s) KDeq 0 (w_kcur s) (w_emitted s))
+      | [] => Some (set_coll s (w_queue s) (w_kread s) (w_klines s) KMidW 0 (w_kcur s) (w_emitted s))
+      end
+    | KMidW =>      (* ... peek(): blocks until a byte of child output or the child's end-of-file, whatever the queue does meanwhile *)
+      if A (w_klines s) <? w_cwritten s then
+        Some (set_coll s (w_queue s) (w_kread s) (w_klines s) KMid2 0 (w_kcur s) (w_emitted s))
+      else if w_cexit s then
+        Some (set_coll s (w_queue s) (w_kread s) (w_klines s) (if p_peek_eof_ok pr then KMid2 else KErr) 0 (w_kcur s) (w_emitted s))
+      else None
+    | KMid2 =>      (* if (queue.Empty()) throw *)
+      match w_queue s with
+      | [] => Some (set_coll s (w_queue s) (w_kread s) (w_klines s) KErr 0 (w_kcur s) (w_emitted s))
+      | _ :: _ => Some (set_coll s (w_queue s) (w_kread s) (w_klines s) KDeq 0 (w_kcur s) (w_emitted s))
       end
     | KPeek =>
       if w_kread s <? w_cwritten s then
